@@ -96,12 +96,20 @@ func (e *emitter) probe(ind int, site []int) {
 		e.line(ind+1, "nil")
 		e.line(ind, "end")
 	case "isa":
+		did2 := e.base + 500 + e.nextDer
+		e.nextDer++
+		e.sites = append(e.sites, Site{ID: did2, Key: key, Derived: form})
 		e.line(ind, "if a <: ::Std::Int")
 		e.line(ind+1, fmt.Sprintf("vp(%d, a)", did))
+		e.line(ind, "else")
+		e.line(ind+1, fmt.Sprintf("vp(%d, a)", did2))
 		e.line(ind, "end")
 	case "not":
+		did2 := e.base + 500 + e.nextDer
+		e.nextDer++
+		e.sites = append(e.sites, Site{ID: did2, Key: key, Derived: form})
 		e.line(ind, "if !a")
-		e.line(ind+1, "nil")
+		e.line(ind+1, fmt.Sprintf("vp(%d, a)", did2))
 		e.line(ind, "else")
 		e.line(ind+1, fmt.Sprintf("vp(%d, a)", did))
 		e.line(ind, "end")
